@@ -102,3 +102,14 @@ Definition stmt_psd_shift_iff : Prop :=
 Definition stmt_psd_shift_strict : Prop :=
   forall n M gamma alpha, spectrum_lower_bound n M gamma -> 0 < alpha + gamma ->
     forall x, 0 < vdotn n x x -> 0 < qf n (madd M (mscal alpha mI)) x.
+
+(** ** lower triangular with non-zero diagonal ⇒ (right-)invertible; so R R⁻¹ = I needs no
+    invertibility hypothesis beyond the shape of the Cholesky factor (which the per-call check
+    validates: strictly upper part exactly 0, diagonal > 0) *)
+Definition lower_tri (n : nat) (L : mat) : Prop := forall i j, (i < j)%nat -> (j < n)%nat -> L i j = 0.
+Definition diag_nz (n : nat) (L : mat) : Prop := forall i, (i < n)%nat -> L i i <> 0.
+Definition stmt_lower_tri_right_inverse : Prop :=
+  forall n L, lower_tri n L -> diag_nz n L -> exists Li, meq n (mmul n L Li) mI.
+Definition stmt_psd_R_Rinv_tri : Prop :=
+  forall n S Z L1 L2 U V lam, psd_factors n S Z L1 L2 U V lam -> lower_tri n L1 -> diag_nz n L1 ->
+    meq n (mmul n (psd_R n L1 V lam) (psd_Rinv n L2 U lam)) mI.
